@@ -133,7 +133,7 @@ func runC13(c *Ctx) {
 		c.Saw(fn)
 		okReq := false
 		for _, call := range callsIn(fn) {
-			if callee := call.Common().StaticCallee(); callee != nil && callee.Name() == "call" {
+			if callee := call.Common().StaticCallee(); callee != nil && callee == clientExchange(w) {
 				ex := w.Expr(call.Common().Args[1])
 				okReq = strings.Contains(ex, "builtin:append") && strings.Contains(ex, "conv<[]byte>(p1)")
 			}
@@ -166,9 +166,9 @@ func runC13(c *Ctx) {
 	if fn := w.methodOfNamed(client, "Forward"); fn != nil && fn.Blocks != nil {
 		ok := false
 		for _, call := range callsIn(fn) {
-			if callee := call.Common().StaticCallee(); callee != nil && callee.Name() == "call" && w.Expr(call.Common().Args[1]) == "p1" {
+			if callee := call.Common().StaticCallee(); callee != nil && callee == clientExchange(w) && w.Expr(call.Common().Args[1]) == "p1" {
 				for _, wc := range callsIn(callee) {
-					if wcallee := wc.Common().StaticCallee(); wcallee != nil && wcallee.Name() == "write" && w.Expr(wc.Common().Args[1]) == "p1" {
+					if wcallee := wc.Common().StaticCallee(); wcallee != nil && isFramingWrite(w, wcallee) && w.Expr(wc.Common().Args[1]) == "p1" {
 						ok = true
 					}
 				}
